@@ -79,6 +79,11 @@ def _rank_of(f: Fn, nid: int, v: ast.AST, depth: int = 0) -> Tuple[str, List[int
     if method_call(v, 'astype') and isinstance(v.func.value, ast.Name):
         return _rank_name(f, nid, v.func.value.id, depth + 1)
     if is_call(v, 'np.array', 'numpy.array', 'np.asarray', 'numpy.asarray'):
+        if v.args and isinstance(v.args[0], ast.Name):
+            # an array made from an array keeps its rank
+            k, ss = _rank_name(f, nid, v.args[0].id, depth + 1)
+            if k in ('1d', '1d-len'):
+                return (k, ss)
         return ('any', [nid])
     if isinstance(v, ast.Name):
         return _rank_name(f, nid, v.id, depth + 1)
@@ -130,7 +135,7 @@ def _dimension_guards(f: Fn, nid: int, arr: str) -> Tuple[bool, bool]:
 def r1_shape_safe(R) -> None:
     sites = 0
     for q in (f'{VC}.add_variable', f'{VC}.__setattr__', f'{VC}.reindex', 'fsic.extensions.model.TracerMixin.__init__'):
-        f = Fn(R, q)
+        f = Fn(R, q, inline_methods=True)
         for (n, owner, key, v) in _whole_array_stores(f):
             sites += 1
             rank, _sites = _rank_of(f, n.id, v)
@@ -151,12 +156,19 @@ def r1_shape_safe(R) -> None:
                         f'(e.g. a nested list of the right outer length stores a 2-D array)', where=f.where(n), path=f.path_to(n))
     # broadcasting a single value is reserved for non-sequences: a sequence of the wrong length must be rejected
     for q in (f'{VC}.add_variable', f'{VC}.__setattr__'):
-        f = Fn(R, q)
+        f = Fn(R, q, inline_methods=True)
         for n in f.cfg.nodes:
             a = n.ast
             if n.kind == 'stmt' and isinstance(a, ast.Assign) and is_call(a.value, 'np.full', 'numpy.full') and a.value.args and text(a.value.args[0]) in SPAN_LEN:
                 g = [(text(x), truth) for (x, truth, _t) in f.guard_atoms(n.id)]
-                ok = any((not truth) and 'isinstance(value, Sequence)' in a_ for (a_, truth) in g) or ('isinstance(value, str)', True) in g
+                pv = (f.fi.params() + ['value'])[2] if len(f.fi.params()) > 2 else 'value'
+
+                def seq_test(x: ast.AST) -> bool:
+                    # an isinstance(<value>, T) test whose T covers Sequence
+                    return any(is_call(y, 'isinstance') and len(y.args) == 2 and text(y.args[0]) == pv
+                               and any(isinstance(z, ast.Name) and z.id == 'Sequence' for z in ast.walk(y.args[1])) for y in ast.walk(x))
+
+                ok = any((not truth) and seq_test(x) for (x, truth, _t) in f.guard_atoms(n.id)) or (f'isinstance({pv}, str)', True) in g
                 R.check(ok, q, 'broadcast-only-scalars:' + ';'.join(f'{a_}={t}' for a_, t in g)[:80], 'only a non-sequence value is broadcast to the span length',
                         f'`{n.label()[:60]}` broadcasts under {g}: a sequence (e.g. of length 1) can be broadcast instead of raising DimensionError',
                         where=f.where(n))
@@ -178,8 +190,87 @@ def r1_shape_safe(R) -> None:
         R.ok('fsic/*', 'no other function replaces a backing array (who-may-write)')
 
 
+FRESH_CALLS = ('np.array', 'numpy.array', 'np.full', 'numpy.full', 'np.zeros', 'np.ones', 'np.empty', 'np.copy', 'numpy.copy', 'np.hstack', 'np.vstack', 'np.concatenate',
+               'np.full_like', 'np.zeros_like', 'np.arange', 'copy.deepcopy', 'copy.copy')
+FRESH_METHODS = ('copy', 'flatten', 'tolist')
+VIEW_CALLS = ('np.asarray', 'numpy.asarray', 'np.require', 'numpy.require', 'np.atleast_1d', 'np.ravel', 'np.reshape', 'np.asanyarray', 'np.squeeze')
+VIEW_METHODS = ('ravel', 'reshape', 'view', 'squeeze', 'transpose')
+
+
+def _freshness(f: Fn, nid: int, v: ast.AST, depth: int = 0) -> Tuple[str, str]:
+    """('fresh' | 'alias' | 'unknown', what) for the array an expression yields: does it own its memory, or may it be
+    (a view of) an object the caller still holds?"""
+    if depth > 8:
+        return ('unknown', 'definition chain too long')
+    if isinstance(v, ast.Call):
+        d = dotted(v.func)
+        if d in FRESH_CALLS:
+            cp = kwarg(v, 'copy')
+            if cp is not None and isinstance(cp, ast.Constant) and cp.value is False and v.args:
+                return _freshness(f, nid, v.args[0], depth + 1)
+            return ('fresh', d)
+        if d in VIEW_CALLS and v.args:
+            return _freshness(f, nid, v.args[0], depth + 1)
+        if isinstance(v.func, ast.Attribute):
+            m = v.func.attr
+            if m == 'astype':
+                cp = kwarg(v, 'copy')
+                if cp is not None and not (isinstance(cp, ast.Constant) and cp.value is True):
+                    return _freshness(f, nid, v.func.value, depth + 1)
+                return ('fresh', '.astype()')
+            if m in FRESH_METHODS:
+                return ('fresh', f'.{m}()')
+            if m in VIEW_METHODS:
+                return _freshness(f, nid, v.func.value, depth + 1)
+        return ('unknown', f'`{text(v)[:40]}`')
+    if isinstance(v, ast.Subscript):
+        return _freshness(f, nid, v.value, depth + 1)
+    if isinstance(v, ast.IfExp):
+        a, b = _freshness(f, nid, v.body, depth + 1), _freshness(f, nid, v.orelse, depth + 1)
+        for k in ('alias', 'unknown'):
+            for x in (a, b):
+                if x[0] == k:
+                    return x
+        return a
+    if isinstance(v, ast.Name):
+        if v.id in f.fi.params():
+            defs = f.lf.defs_reaching(nid, v.id)
+            if PARAM in defs:
+                return ('alias', f'the argument `{v.id}`')
+        res = []
+        for (s, dv) in f.lf.values_reaching(nid, v.id):
+            if s == PARAM:
+                res.append(('alias', f'the argument `{v.id}`'))
+            elif dv is None:
+                res.append(('unknown', f'`{v.id}` bound by `{f.cfg.nodes[s].label()[:40]}`'))
+            else:
+                res.append(_freshness(f, s, dv, depth + 1))
+        for k in ('alias', 'unknown'):
+            for x in res:
+                if x[0] == k:
+                    return x
+        return res[0] if res else ('unknown', f'`{v.id}` has no definition')
+    if isinstance(v, (ast.List, ast.Tuple, ast.ListComp, ast.Constant, ast.BinOp)):
+        return ('fresh', 'a new object')
+    return ('unknown', f'`{text(v)[:40]}`')
+
+
+def r1b_fresh_arrays(R) -> None:
+    """Every array installed as a series' backing store owns its memory: never (a view of) an object handed in by the
+    caller.  Otherwise two series - or a series and the caller's data - share storage, and writing one writes the other."""
+    for q in (f'{VC}.add_variable', f'{VC}.__setattr__', f'{VC}.reindex', 'fsic.extensions.model.TracerMixin.__init__'):
+        f = Fn(R, q, inline_methods=True)
+        for (n, owner, key, v) in _whole_array_stores(f):
+            kind, what = _freshness(f, n.id, v)
+            if kind == 'unknown':
+                raise Unknown(f'{q}: cannot tell whether `{text(v)[:50]}` stored by `{n.label()[:60]}` owns its memory ({what})')
+            R.check(kind == 'fresh', q, f'fresh-array:{stmt_key(n.ast)}', 'the array installed as backing store is a new array',
+                    f'`{n.label()[:70]}` can install {what} itself (or a view of it) as the backing array: the series would share memory with the caller\'s object '
+                    f'(two variables initialised from one array, or later changes to that array, write through)', where=f.where(n))
+
+
 def r2_dtype(R) -> None:
-    f = Fn(R, f'{VC}.__setattr__')
+    f = Fn(R, f'{VC}.__setattr__', inline_methods=True)
     stores = _whole_array_stores(f)
     for (n, owner, key, v) in stores:
         name_expr = is_underscore_key(key)
@@ -246,7 +337,7 @@ def r2_dtype(R) -> None:
 
 def r3_raise_before_store(R) -> None:
     for q in (f'{VC}.add_variable', f'{VC}.__setattr__', f'{VC}.add_attribute'):
-        f = Fn(R, q)
+        f = Fn(R, q, inline_methods=True)
         eff = effect_nodes(f.cfg, effects_of(R.repo))
         for r in f.raises():
             fwd = f.cfg.reachable_from(f.cfg.entry)
@@ -286,7 +377,7 @@ def r3_raise_before_store(R) -> None:
 
 
 def r4_strict(R) -> None:
-    f = Fn(R, f'{VC}.__setattr__')
+    f = Fn(R, f'{VC}.__setattr__', inline_methods=True)
     rs = f.raises('AttributeError')
     if not R.require(f.q, len(rs), 'raise AttributeError under strict', fi=f.fi, pred=lambda x: isinstance(x, ast.Raise)):
         return
@@ -391,6 +482,7 @@ def run(R) -> None:
         'per class via the MRO (BaseLinker: K7). Does not decide NumPy casting results.'
     )
     R.rule('C09.R1', lambda: r1_shape_safe(R))
+    R.rule('C09.R1b', lambda: r1b_fresh_arrays(R))
     R.rule('C09.R2', lambda: r2_dtype(R))
     R.rule('C09.R3', lambda: r3_raise_before_store(R))
     R.rule('C09.R4', lambda: r4_strict(R))
